@@ -1,11 +1,13 @@
 // c03: multi-path differential harness for property C03 (deterministic replicated execution) — also serves C11's first clause.
 // Four real nodes (controller.Controller + FSM + store) share a genesis.  For every block:
-//   A (rotating leader) builds the proposal from its mempool (ProduceProposal; the mempool holds valid, invalid, conflicting
-//     and exactly-draining transactions, sometimes more than 16 state operations so that the 8-way parallel tree commit runs);
-//   B validates it (ValidateProposal) and commits with the CACHED block result;
-//   C commits it by REPLAY only (no validation, no cached result);
-//   D runs on a re-openable store, is restarted (database closed and re-opened, all in-memory caches fresh) every few blocks and
-//     commits by replay; D also runs speculative validations of a DIFFERENT proposal that are discarded before the real one.
+//
+//	A (rotating leader) builds the proposal from its mempool (ProduceProposal; the mempool holds valid, invalid, conflicting
+//	  and exactly-draining transactions, sometimes more than 16 state operations so that the 8-way parallel tree commit runs);
+//	B validates it (ValidateProposal) and commits with the CACHED block result;
+//	C commits it by REPLAY only (no validation, no cached result);
+//	D runs on a re-openable store, is restarted (database closed and re-opened, all in-memory caches fresh) every few blocks and
+//	  commits by replay; D also runs speculative validations of a DIFFERENT proposal that are discarded before the real one.
+//
 // GOMAXPROCS is varied between runs.  After every block each node reports (block hash, state root, results hash, store root);
 // all must be identical.  The records go to Coq (uniform pipeline): the model of "the header is a function of (prefix, block)" is
 // that all reports are equal.
@@ -33,6 +35,8 @@ type stats struct {
 	Dropped   int            `json:"transactions_dropped_by_proposer"`
 	Restarts  int            `json:"restarts"`
 	Specul    int            `json:"discarded_speculative_validations"`
+	Archive   int            `json:"heights_revalidated_from_archive"`
+	Unusual   int            `json:"unusually_encoded_transactions_offered"`
 	Kinds     map[string]int `json:"tx_kinds_offered"`
 	Procs     map[string]int `json:"gomaxprocs"`
 	BigBlocks int            `json:"blocks_with_16_or_more_state_ops"`
@@ -68,6 +72,7 @@ func main() {
 	nChains := flag.Int("chains", 3, "independent chains")
 	nBlocks := flag.Int("blocks", 12, "blocks per chain")
 	outDir := flag.String("outdir", ".", "output directory")
+	prop := flag.Int("prop", 0, "3: the execution paths only; 11 (or 0): also fresh nodes syncing from the archive")
 	_ = flag.String("replay", "", "replay file (cases regenerate deterministically from the seed)")
 	flag.Parse()
 	r := sim.NewRng(sim.SeedFromEnv())
@@ -116,6 +121,16 @@ func main() {
 			}
 			for i := 0; i < ntx; i++ {
 				tx, _ := gen.Next(leader.C.FSM)
+				if len(tx) > 0 && r.Chance(8) {
+					// an unusually encoded copy of a transaction (explicit default field appended / fee as a non-minimal varint):
+					// it decodes to the same transaction; it must not make the block unportable (C11) nor execute twice (C06)
+					if r.Bool() {
+						tx = append(append([]byte{}, tx...), 0x3a, 0x00)
+					} else {
+						tx = append(append([]byte{}, tx...), 0x50, 0x80, 0x00)
+					}
+					st.Unusual++
+				}
 				txs = append(txs, tx)
 			}
 			if len(txs) > 1 && r.Chance(30) {
@@ -235,6 +250,43 @@ func main() {
 				st.Samples = append(st.Samples, lit)
 			}
 		}
+		// C11: a fresh node catches up from what node 0 serves from its archive (certificate + re-marshalled block) through the
+		// sync path; every height must re-validate to the hash the chain committed, and the final state root must be the chain's
+		nodes[0].Enter()
+		top := nodes[0].C.FSM.Height()
+		if top > 1 && *prop != 3 {
+			fresh, ferr := sim.NewCNode(g.State(), 2, nil)
+			if ferr != nil {
+				panic(ferr)
+			}
+			okAll := true
+			for h := uint64(1); h < top; h++ {
+				nodes[0].Enter()
+				qc, lerr := nodes[0].C.LoadCertificate(h)
+				if lerr != nil || qc == nil {
+					sim.Direct(*outDir, map[string]any{"finding": "archive-cannot-serve-height", "kind": "LoadCertificate failed for a committed height", "height": h})
+					okAll = false
+					break
+				}
+				served := sim.CloneQC(qc)
+				if derr := fresh.Deliver(served, true); derr != nil {
+					sim.Direct(*outDir, map[string]any{"finding": "served-block-rejected-by-fresh-node", "kind": "archive block does not re-validate", "height": h, "error": derr.Error()})
+					okAll = false
+					break
+				}
+				st.Archive++
+			}
+			if okAll {
+				fresh.Enter()
+				a, _ := fresh.C.FSM.LoadBlock(top - 1)
+				nodes[0].Enter()
+				b0, _ := nodes[0].C.FSM.LoadBlock(top - 1)
+				if a == nil || b0 == nil || !bytes.Equal(a.BlockHeader.Hash, b0.BlockHeader.Hash) || !bytes.Equal(a.BlockHeader.StateRoot, b0.BlockHeader.StateRoot) {
+					sim.Direct(*outDir, map[string]any{"finding": "replayed-chain-differs", "kind": "fresh node synced from the archive ends with another block hash / state root", "height": top - 1})
+				}
+			}
+			fresh.Close()
+		}
 		for k, v := range gen.Counts {
 			st.Kinds[k] += v
 		}
@@ -244,7 +296,7 @@ func main() {
 	}
 	runtime.GOMAXPROCS(runtime.NumCPU())
 	cw.Close(st)
-	fmt.Printf("c03: %d blocks on %d chains x 5 paths (%d txs included, %d dropped by proposers, %d restarts, %d discarded speculations)\n", st.Blocks, *nChains, st.Txs, st.Dropped, st.Restarts, st.Specul)
+	fmt.Printf("c03: %d blocks on %d chains x 5 paths (%d txs included, %d dropped by proposers, %d restarts, %d discarded speculations, %d heights re-validated by fresh nodes from the archive)\n", st.Blocks, *nChains, st.Txs, st.Dropped, st.Restarts, st.Specul, st.Archive)
 }
 
 func mustMarshal(x any) []byte {
